@@ -782,6 +782,8 @@ def numpy_binning(
             edges = np.array(
                 [edge] + [edge := np.nextafter(edge, np.inf) for _ in edges[1:]]
             )
+            # The spacing of floats may grow inside the range (across a power of two)
+            edges[-1] = max(edges[-1], stop)
             # raise ValueError(
             #    f"Range too narrow to split into {bin_count} bins: {start} to {stop}."
             # )
